@@ -64,6 +64,8 @@ pub struct JResult {
     pub max_call_steps: BTreeMap<String, u64>,
     pub max_nodes: usize,
     pub dev: (u32, u32, u32),
+    #[serde(default)]
+    pub max_load: (u64, Vec<u16>),
     /// probe only: alternatives at each choice point beyond the prefix
     pub ns: Vec<u16>,
     /// probe only: the recorded call history of that execution
@@ -87,6 +89,7 @@ impl JResult {
             max_call_steps: r.max_call_steps.clone(),
             max_nodes: r.max_nodes,
             dev: r.max_deviations,
+            max_load: r.max_load.clone(),
             ns: Vec::new(),
             history: Vec::new(),
         }
@@ -111,6 +114,7 @@ pub struct Merged {
     pub max_call_steps: BTreeMap<String, u64>,
     pub max_nodes: usize,
     pub dev: (u32, u32, u32),
+    pub max_load: (u64, Vec<u16>),
     pub tasks: u64,
     pub probes: u64,
     pub samples: Vec<Vec<String>>,
@@ -143,6 +147,9 @@ impl Merged {
             *e = (*e).max(v);
         }
         self.max_nodes = self.max_nodes.max(r.max_nodes);
+        if r.max_load.0 > self.max_load.0 {
+            self.max_load = r.max_load;
+        }
         self.dev.0 = self.dev.0.max(r.dev.0);
         self.dev.1 = self.dev.1.max(r.dev.1);
         self.dev.2 = self.dev.2.max(r.dev.2);
@@ -206,12 +213,41 @@ pub fn worker_main(inst: &Inst, cfg: &rt::Config, deciding: Option<&str>, known:
     }
 }
 
+/// Addresses differ between runs (allocator state); compare traces with every large hex number
+/// replaced by the index of its first appearance.
+pub fn normalize_trace(t: &[String]) -> Vec<String> {
+    let mut ids: std::collections::HashMap<String, usize> = std::collections::HashMap::new();
+    t.iter()
+        .map(|l| {
+            let mut out = String::new();
+            let mut rest = l.as_str();
+            while let Some(p) = rest.find("0x") {
+                out.push_str(&rest[..p]);
+                let tail = &rest[p + 2..];
+                let n = tail.chars().take_while(|c| c.is_ascii_hexdigit()).count();
+                let hex = &tail[..n];
+                if n > 4 {
+                    let k = ids.len();
+                    let id = *ids.entry(hex.to_string()).or_insert(k);
+                    out.push_str(&format!("@{}", id));
+                } else {
+                    out.push_str("0x");
+                    out.push_str(hex);
+                }
+                rest = &tail[n..];
+            }
+            out.push_str(rest);
+            out
+        })
+        .collect()
+}
+
 /// Before a violation is reported it is replayed twice with a trace; the traces must agree.
 fn finish_violation(inst: &Inst, cfg: &rt::Config, j: &mut JResult) {
     let mut fix = |v: &mut JViol| {
         let a = runner::replay_local(inst, cfg, &v.choices);
         let b = runner::replay_local(inst, cfg, &v.choices);
-        let same = a.trace == b.trace
+        let same = normalize_trace(&a.trace) == normalize_trace(&b.trace)
             && a.violation.as_ref().map(|x| (&x.property, &x.message)) == b.violation.as_ref().map(|x| (&x.property, &x.message))
             && a.violation.as_ref().map(|x| x.message.clone()) == Some(v.message.clone());
         v.deterministic = same;
